@@ -240,7 +240,7 @@ NDARRAY = ATypeRef('ndarray')
 NOT_GIVEN = object()
 
 _BUILTINS = {'len', 'type', 'issubclass', 'isinstance', 'print', 'bool', 'int', 'float', 'abs', 'min', 'max',
-             'range', 'hasattr', 'getattr', 'super', 'vars', 'str', 'tuple', 'list', 'sum', 'enumerate', 'zip', 'Exception', 'id', 'dict', 'set',
+             'range', 'hasattr', 'getattr', 'super', 'vars', 'str', 'tuple', 'list', 'sum', 'enumerate', 'zip', 'Exception', 'id', 'dict', 'set', 'slice',
              'TypeError', 'ValueError', 'AttributeError', 'NotImplementedError', 'IndexError'}
 _EXC_NAMES = {'Exception', 'TypeError', 'ValueError', 'AttributeError', 'NotImplementedError', 'IndexError',
               'KeyError', 'ZeroDivisionError', 'RuntimeError'}
